@@ -69,6 +69,22 @@ def _line_closed():
 register(Unit('lemma.line_closed', None, None, _line_closed, assumptions=['instances of lemma.galois/galois2']))
 
 
+def loop_roles(qualname):
+    """Roles of the locals of fast_generate_from / fcbo_dual, read off the real AST (robust against renamed locals):
+    'stack' = the variable tested by the outer `while V:` loop."""
+    import ast
+    from pyvc import extract
+    roles = {'stack': 'stack'}
+    try:
+        fn = extract.get_function('concepts/algorithms/fcbo.py', qualname).node
+    except extract.ExtractionError:
+        return roles
+    whiles = sorted((n for n in ast.walk(fn) if isinstance(n, ast.While)), key=lambda n: (n.lineno, n.col_offset))
+    if whiles and isinstance(whiles[0].test, ast.Name):
+        roles['stack'] = whiles[0].test.id
+    return roles
+
+
 class Entries:
     """The abstract stack."""
 
@@ -116,6 +132,7 @@ class Entries:
             idx = p.fresh_int('idx')
             entry = TupleV([TupleV([E, Ip]), IntV(idx), self.setlist()])
             p.assume(self.entry_ok(entry))
+            self.popped = (E.t, Ip.t)        # the concept being expanded (for the `use lemma` instances of its candidates)
             # after the pop the stack may be empty or not: its truthiness is a new unknown
             ne2 = p.fresh_bool('stack.nonempty')
             st.truth_fn = lambda: ne2
@@ -132,21 +149,28 @@ class Entries:
         return st
 
 
-def _fcbo_unit(dual):
+def _fcbo_unit(name, dual):
     def make():
         C = Ctx()
         axioms = C.axioms()
 
         def harness(path):
             ent = Entries(C, path, dual)
+            roles = loop_roles(name)        # the name of the stack variable, read off the real AST (robust against renamed locals)
             ctx = full_context_obj(C)
             atom = Function('atomv', I, I)
             k, h = Ints('k h')
             path.assume(ForAll([h, k], bit(atom(h), k) == (k == h), patterns=[bit(atom(h), k)]))
             path.assume(ForAll([h], atom(h) >= 0, patterns=[atom(h)]))
             ctx.fields['shape'] = ObjV('Shape', {'objects': IntV(C.n), 'properties': IntV(C.m)})
-            ctx.fields['_extents'].fields['__getitem__'] = FuncV('Vectors.__getitem__', lambda p, args, kw: _at(p, C, 'col', args[1]))
-            ctx.fields['_intents'].fields['__getitem__'] = FuncV('Vectors.__getitem__', lambda p, args, kw: _at(p, C, 'row', args[1]))
+
+            def line(p, which, i):
+                # the line of attribute i (column extent / row intent) is read to compute the candidate of i: `use lemma` for it
+                if which == ('row' if dual else 'col') and getattr(ent, 'popped', None) is not None:
+                    use_lemmas(p, i.t, *ent.popped)
+                return _at(p, C, which, i)
+            ctx.fields['_extents'].fields['__getitem__'] = FuncV('Vectors.__getitem__', lambda p, args, kw: line(p, 'col', args[1]))
+            ctx.fields['_intents'].fields['__getitem__'] = FuncV('Vectors.__getitem__', lambda p, args, kw: line(p, 'row', args[1]))
             meths = lib.int_methods(C)
             for tag, width in (('Objects', C.n), ('Properties', C.m)):
                 meths[(tag, 'atoms')] = FuncV(tag + '.atoms', lambda p, args, kw, _t=tag, _w=width:
@@ -154,12 +178,12 @@ def _fcbo_unit(dual):
             env = {'context': ctx}
 
             def inv(e):
-                st = e.val('stack')
+                st = e.val(roles['stack'])
                 if isinstance(st, ListV):
                     return [('stack-entries-sound', And(*[ent.entry_ok(x) for x in st.items]) if st.items else BoolVal(True))]
                 return []
             outer = LoopSpec(inv)
-            outer.modifies = ['stack']
+            outer.modifies = [roles['stack']]
             inner = LoopSpec(lambda e, t: [])
 
             def on_yield(p, env_, val):
@@ -169,29 +193,25 @@ def _fcbo_unit(dual):
                          And(is_concept(C, val.items[0].t, val.items[1].t),
                              BoolVal(val.items[0].tag == 'Objects' and val.items[1].tag == 'Properties')) if ok else BoolVal(False))
 
-            def use_lemmas(p, e):
+            def use_lemmas(p, j, extent, intent):
                 # use lemma.line_closed(j), lemma.meet_closed for (extent, line j), lemma.galois for the intersection
-                j = e.j
                 which = 'row' if dual else 'col'
                 p.assume(st_line_closed(C, which, j))
                 if dual:
                     S = Side(C, 'P')
-                    a, b = e.intent, C.O.other_at(j)
+                    a, b = intent, C.O.other_at(j)
                 else:
                     S = Side(C, 'O')
-                    a, b = e.extent, C.O.self_at(j)
+                    a, b = extent, C.O.self_at(j)
                 p.assume(st_meet_closed(S, a, b))
                 use_galois(p, S, a)
                 use_galois(p, S, band(a, b))
                 # the concept popped from the stack has a closed second component as well
                 D = Side(C, 'O' if dual else 'P')
-                use_galois(p, D, e.extent if dual else e.intent)
+                use_galois(p, D, extent if dual else intent)
             loops = {'int_methods': meths, 'globals': lib.builtins(), 0: outer, 1: inner, 'on_yield': on_yield,
-                     'havoc_stack': lambda p, cur: ent.abstract(),
-                     # before `j_extent = extent & context._extents[j]` (Assign ordinal found by name below)
-                     'before': {}}
+                     'havoc_' + roles['stack']: lambda p, cur: ent.abstract()}
             loops['list_repeat'] = lambda p, lst, n: _repeat(p, ent, lst, n)
-            loops['before_assign_to'] = {('j_intent' if dual else 'j_extent'): use_lemmas}
 
             def finish(path, env_, outcome):
                 if outcome[0] != 'return':
@@ -213,7 +233,7 @@ def _at(p, C, which, i):
 
 
 for _name, _dual in (('fast_generate_from', False), ('fcbo_dual', True)):
-    register(Unit('fcbo.' + _name, 'concepts/algorithms/fcbo.py', _name, _fcbo_unit(_dual),
+    register(Unit('fcbo.' + _name, 'concepts/algorithms/fcbo.py', _name, _fcbo_unit(_name, _dual),
                   assumptions=['soundness only: exactly-once and completeness are NOT proved (bounded stand-in)',
                                'bitsets contracts: atoms() = the atoms 2^j ascending, fromint identity, supremum/infimum',
                                'stack abstraction: pop returns an arbitrary entry satisfying the entry invariant',
